@@ -440,6 +440,33 @@ class Core:
             out.append(grp[0] if len(grp) == 1 else self._merge_group(grp))
         return out
 
+    def _peel_fresh_stores(self, arr):
+        """strip stores at references allocated by this execution: -> (base array, allocation symbol | None)"""
+        sym = None
+        for _ in range(200):
+            if not (z3.is_app(arr) and arr.decl().kind() == z3.Z3_OP_STORE):
+                break
+            base, idx, _v = arr.children()
+            idx = z3.simplify(idx)
+            if not self._is_alloc_term(idx):
+                break
+            s_ = self._alloc_symbol(idx)
+            if s_ is None or (sym is not None and not z3.eq(sym, s_)):
+                break
+            sym = s_
+            arr = base
+        return arr, sym
+
+    def _alloc_symbol(self, t):
+        if z3.is_app(t) and t.num_args() == 0 and t.decl().kind() == z3.Z3_OP_UNINTERPRETED:
+            return t
+        if z3.is_app(t) and t.decl().kind() == z3.Z3_OP_ADD:
+            syms = [c for c in t.children() if not z3.is_int_value(c)]
+            ints = [c for c in t.children() if z3.is_int_value(c)]
+            if len(syms) == 1 and all(c.as_long() >= 0 for c in ints):
+                return self._alloc_symbol(syms[0])
+        return None
+
     def _merge_group(self, grp):
         n = min(len(s.pc) for s in grp)
         k = 0
@@ -464,7 +491,22 @@ class Core:
         for s in grp:
             fields |= set(s.heap)
         for f in sorted(fields):
-            m.heap[f] = join([s.H(f) for s in grp], 'H!' + f)
+            vals = [s.H(f) for s in grp]
+            j = join(vals, 'H!' + f)
+            m.heap[f] = j
+            if not any(j.get_id() == v.get_id() for v in vals):
+                # branches that differ only by stores to objects they allocated themselves agree on every object
+                # that existed when they forked: state that frame unconditionally (keeps the join usable)
+                bases, los = [], []
+                for v in vals:
+                    b, lo = self._peel_fresh_stores(v)
+                    bases.append(b)
+                    los.append(lo)
+                if all(b.get_id() == bases[0].get_id() for b in bases):
+                    syms = [lo for lo in los if lo is not None]
+                    if syms and all(z3.eq(x, syms[0]) for x in syms):
+                        r = z3.Int('mj!r')
+                        m.pc.append(qforall([r], z3.Implies(r < syms[0], z3.Select(j, r) == z3.Select(bases[0], r))))
         m.ap = join([s.ap for s in grp], 'ap')
         m.out = join([s.out for s in grp], 'OUT')
         disj = []
